@@ -7,6 +7,8 @@ import Juniper.Driver.C12
 import Juniper.Driver.C05
 import Juniper.Driver.C06
 import Juniper.Driver.C11
+import Juniper.Driver.C16
+import Juniper.Driver.C18
 /-! `driver <model>`: runs one executable model behind the line protocol. Core-only (no Mathlib).
 Registration: one `import` line above and one `[("name", handler)],` line below per model
 (this file is merged with git's union driver, so keep one entry per line). -/
@@ -21,6 +23,8 @@ def handlers : List (String × Handler) := List.flatten [
   [("heap", Juniper.Driver.C05.handler)],
   [("xlist", Juniper.Driver.C06.handler)],
   [("batch", Juniper.Driver.C11.handler)],
+  [("cond", Juniper.Driver.C16.handler)],
+  [("tmap", Juniper.Driver.C18.mapHandler), ("watch", Juniper.Driver.C18.watchHandler), ("future", Juniper.Driver.C18.futHandler), ("lazy", Juniper.Driver.C18.lazyHandler)],
   []]
 
 def main (args : List String) : IO UInt32 := do
